@@ -92,6 +92,8 @@ def std_fmt(I, trait, v, ref, fref):
                 return r
             fmt_append(I, fref, lit(')'))
         return FMT_OK
+    if isinstance(v, Agg) and v.ty == 'Arguments':
+        return run_arguments(I, v, fref)        # format_args!(..) used as a Display / Debug value
     if isinstance(v, Agg):
         fmt_append(I, fref, lit(v.ty + '{'))
         for x in v.f:
